@@ -275,6 +275,10 @@ theorem step_effect {s s' : State} {op : Op} {e : Event} (h : step s op = .ok (s
     simp only [step] at h
     cases h
     exact ⟨⟨rfl, rfl, rfl, rfl⟩, rfl, rfl⟩
+  | govern mp =>
+    simp only [step] at h
+    cases h
+    exact ⟨⟨rfl, rfl, rfl, rfl⟩, rfl, rfl⟩
 
 /-! ## Generic counting lemmas over traces -/
 
@@ -692,6 +696,7 @@ theorem C03_stage_total_step (s s' : State) (op : Op) (a : Addr) (sid cnt ent to
     | setWhitelist sender id wk funds started oa na pre => simp only [step] at h; repeat (first | cases h | split at h)
     | purge funds pre => simp only [step] at h; repeat (first | cases h | split at h)
     | env => simp only [step] at h; cases h
+    | govern mp => simp only [step] at h; cases h
   · obtain ⟨_, _, _, htot, hL, _, _, ht⟩ := h1 hs
     exact ⟨hs, htot, hL L rfl, by simp [ht, upd]⟩
 
@@ -931,6 +936,10 @@ theorem C03_limits_only_admin (s s' : State) (op : Op) (e : Event) (h : step s o
     repeat (first | cases h | split at h)
     exact ⟨fun hne => absurd rfl hne, fun hne => absurd rfl hne⟩
   | env =>
+    simp only [step] at h
+    cases h
+    exact ⟨fun hne => absurd rfl hne, fun hne => absurd rfl hne⟩
+  | govern mp =>
     simp only [step] at h
     cases h
     exact ⟨fun hne => absurd rfl hne, fun hne => absurd rfl hne⟩
